@@ -14,6 +14,9 @@ FINISH = dict(level="model_checking",
               rule="a case = one list of evaluator rows (TLC-generated) pushed through the real encode/decode (all) or a whole Experiment.run in five file configurations (sample); distinct = distinct row lists")
 
 
+BIG = {1: 3965164488755.0, 2: 1.7976931348623157e308, 3: -3121000059417.0}      # whole-number floats: >= 2**41 (times 1e5 is no longer exact), the largest finite double
+
+
 def to_py(v):
     t = v["t"]
     if t == "int": return v["v"]
@@ -22,6 +25,7 @@ def to_py(v):
     if t == "none": return None
     if t == "nan": return float("nan")
     if t == "inf": return float("inf")
+    if t == "big": return BIG[v["v"]]
     if t == "lst": return [to_py(x) for x in v["v"]]
     if t == "tup": return tuple(to_py(x) for x in v["v"])
     if t == "dct": return {to_py(k): to_py(x) for k, x in v["v"]}
@@ -115,6 +119,11 @@ def run(ctx):
         r2 = tlc.run("ResultCodec", cfg, ctx.scratch, workers=16, timeout=3600, heap="8g")
         ctx.add_tlc("ResultCodec text values", r2)
         cases += [j for j in r2.json if isinstance(j, dict) and "expected" in j]
+    # whole-number floats of extreme magnitude (both tiers): multiplying by 1e5 is no longer exact, or overflows
+    cfg = tracecheck._cfg("ResultCodec.cfg", {"ValSet <- SmallVals": "ValSet <- BigVals"}, ctx.scratch, "codec_big.cfg")
+    r3 = tlc.run("ResultCodec", cfg, ctx.scratch, workers=16, timeout=3600, heap="8g")
+    ctx.add_tlc("ResultCodec extreme floats", r3)
+    cases += [j for j in r3.json if isinstance(j, dict) and "expected" in j]
     cases.sort(key=lambda c: json.dumps(c, sort_keys=True))
     ctx.sample(cases[len(cases) // 3], limit=1)
     ctx.exhaustive = True
